@@ -1224,7 +1224,7 @@ func c05Gen(g *Gen) {
 		}
 	}
 	// (a) random structured cases
-	n := g.N(260, 6000)
+	n := g.N(600, 8000)
 	for i := 0; i < n; i++ {
 		var lines []string
 		k := r.Range(3, 9)
